@@ -169,7 +169,7 @@ def constrained_reference(A, b, cons):
     red = [k for k in range(n) if k not in fixed and k not in tie]
     col = {k: idx for idx, k in enumerate(red)}
     T = np.zeros((n, len(red)))
-    y0 = np.zeros(n)
+    y0 = np.zeros(n, dtype=(complex if np.iscomplexobj(A) or np.iscomplexobj(b) else float))
     for k in range(n):
         if k in fixed:
             y0[k] = fixed[k]
@@ -221,6 +221,246 @@ def compare_replies(lines, rc, rm, what, solve_rel=1e-9):
             if not close(x, y, sc):
                 return dict(at=k, line=l[:200], impl=d2tok(x) + "=%r" % x, model=d2tok(y) + "=%r" % y, what="value differs")
     return None
+
+
+
+# ----------------------------------------------------------------------------- the complex solver (cspars.cpp)
+def ctok(z):
+    return d2tok(z.real) + " " + d2tok(z.imag)
+
+
+def scenario_complex(rng, nodes, exact_vals):
+    """complex-symmetric system of the kind Harmonic2D assembles: sign * (stiffness + j * mass) on the node rows (band
+    pattern), optional circuit rows beyond NumNodes (imaginary couplings to the nodes of a conductor, imaginary diagonal),
+    constraint operations, products, divisions, a solve"""
+    ncirc = rng.choice([0, 0, 1, 2])
+    n = nodes + ncirc
+    bw = rng.randint(1, max(1, min(5, nodes - 1)))
+    hint = rng.choice([0, bw + 1, bw + 1 + rng.randint(0, 3)])
+    sign = rng.choice([-1.0, 1.0])
+    lines = ["create %d %d %d" % (n, hint, nodes)]
+    contrib = []
+    for i in range(nodes):
+        for d in range(1, bw + 1):
+            if i + d < nodes and (d == 1 or rng.random() < 0.6):
+                if exact_vals:
+                    w = rng.randint(1, 32) / 8
+                    m = rng.randint(0, 8) / 8
+                else:
+                    w = rng.uniform(0.1, 10.0) * 10 ** rng.uniform(-1, 1)
+                    m = rng.choice([0.0, rng.uniform(0.0, 1.0) * 10 ** rng.uniform(-2, 1)])
+                contrib += [(sign * complex(w, 2 * m), i, i), (sign * complex(w, 2 * m), i + d, i + d),
+                            (sign * complex(-w, m), i, i + d) if rng.random() < 0.5 else (sign * complex(-w, m), i + d, i)]
+    for i in range(nodes):
+        sft = (rng.randint(1, 16) / 8) if exact_vals else rng.uniform(0.01, 2.0)
+        contrib.append((sign * complex(sft, 0.0), i, i))
+    rng.shuffle(contrib)
+    for (v, p_, q_) in contrib:
+        lines.append("addto %s %d %d" % (ctok(v), p_, q_))
+    for k in range(nodes, n):
+        members = [i for i in range(nodes) if rng.random() < 0.35] or [rng.randrange(nodes)]
+        tot = 0.0
+        for i in members:
+            m = (rng.randint(1, 8) / 8) if exact_vals else rng.uniform(0.05, 1.0)
+            tot += m
+            lines.append("put %s %d %d" % (ctok(sign * complex(0.0, m)), i, k) if rng.random() < 0.5 else
+                         "put %s %d %d" % (ctok(sign * complex(0.0, m)), k, i))
+        lines.append("addto %s %d %d" % (ctok(sign * complex(0.0, 3 * tot + 0.5)), k, k))
+    for i in range(n):
+        v = complex(dy(rng), dy(rng)) if exact_vals else complex(rng.uniform(-5, 5), rng.uniform(-5, 5))
+        lines.append("setb %d %s" % (i, ctok(v)))
+    lines.append("dump")
+    free = list(range(nodes))
+    rng.shuffle(free)
+    cons = []
+    for _ in range(rng.randint(0, min(6, nodes // 2))):
+        r = rng.random()
+        if r < 0.4 and len(free) >= 1:
+            i = free.pop()
+            x = complex(dy(rng), dy(rng)) if exact_vals else complex(rng.uniform(-3, 3), rng.uniform(-3, 3))
+            cons.append(("setvalue", i, x))
+        elif len(free) >= 2:
+            i, j = free.pop(), free.pop()
+            cons.append(("periodic" if r < 0.7 else "antiperiodic", i, j))
+    if hint != 0:
+        cons.sort(key=lambda c: c[0] != "setvalue")
+    for c in cons:
+        lines.append("%s %d %s" % (c[0], c[1], ctok(c[2]) if c[0] == "setvalue" else "%d" % c[2]))
+    lines.append("dump")
+    x = [complex(rng.uniform(-1, 1), rng.uniform(-1, 1)) for _ in range(n)]
+    lines.append("multa " + " ".join(ctok(v) for v in x))
+    lines.append("multpc %s " % d2tok(LAMBDA) + " ".join(ctok(v) for v in x))
+    lines.append("appa %s " % d2tok(LAMBDA) + " ".join(ctok(v) for v in x))
+    for _ in range(4):
+        num = complex(rng.uniform(-1, 1), rng.uniform(-1, 1))
+        den = complex(rng.uniform(-1, 1) * 10 ** rng.randint(-3, 3), rng.uniform(-1, 1) * 10 ** rng.randint(-3, 3))
+        if rng.random() < 0.2:
+            den = complex(den.real, den.real * rng.choice([1, -1]))       # |re| == |im|: the else branch at the boundary
+        if rng.random() < 0.1:
+            den = complex(0.0, den.imag) if rng.random() < 0.5 else complex(den.real, 0.0)
+        if exact_vals:
+            num = complex(dy(rng), dy(rng))
+            den = complex(dy(rng), dy(rng)) or complex(1, 0)
+        lines.append("div %s %s" % (ctok(num), ctok(den)))
+    flag = rng.random() < 0.3
+    if flag:
+        lines.append("setv " + " ".join(ctok(complex(rng.uniform(-1, 1), rng.uniform(-1, 1))) for _ in range(n)))
+    lines.append("solve %d %s %s %d" % (1 if flag else 0, d2tok(PREC), d2tok(LAMBDA), 60 * n + 400))
+    return lines, dict(n=n, nodes=nodes, circuits=ncirc, hint=hint, bw=bw, cons=cons, warm=flag, sign=sign)
+
+
+def pieces(reply):
+    """reply -> list of ('f', float) / ('s', text) pieces (tokens split at blanks and commas)"""
+    out = []
+    for t in reply.replace(",", " , ").split():
+        if len(t) == 17 and t[0] == "x":
+            out.append(("f", tok2d(t)))
+        elif "/" in t and t.replace("/", "").replace("-", "").isdigit():
+            out.append(("q", rat(t)))
+        else:
+            out.append(("s", t))
+    return out
+
+
+def compare_complex(lines, rc, rm, exact_model=False, solve_rel=1e-9):
+    """first difference between implementation and model replies (Float model: <= 4 ulp or 1e-13 * scale; solve: 1e-9;
+    exact model: 1e-11 * scale, solve / preconditioner / normal-equation products skipped)"""
+    if len(rc) != len(lines) or len(rm) != len(lines):
+        return dict(at=min(len(rc), len(rm)), line="<eof>", impl=len(rc), model=len(rm), what="reply count differs")
+    for k, (l, a, b) in enumerate(zip(lines, rc, rm)):
+        if a == b:
+            continue
+        op = l.split()[0]
+        if exact_model and op in ("solve", "multpc", "appa"):
+            continue
+        pa, pb = pieces(a), pieces(b)
+        if op == "solve":
+            pa = [x for x in pa if x[0] != "s" or x[1] in ("singular", "converged", "nofuel")]
+            pb = [x for x in pb if x[0] != "s" or x[1] in ("singular", "converged", "nofuel")]
+            pa = [x for i_, x in enumerate(pa) if not (i_ == 1 and x[0] == "s")]
+            pb = [x for i_, x in enumerate(pb) if not (i_ == 1 and x[0] == "s")]
+        if len(pa) != len(pb):
+            return dict(at=k, line=l[:200], impl=a[:300], model=b[:300], what="reply shape differs")
+        fa = [float(x[1]) for x in pa if x[0] != "s"]
+        sc = max([abs(v) for v in fa if v == v and abs(v) != float("inf")] + [1e-300])
+        for x, y in zip(pa, pb):
+            if (x[0] == "s") != (y[0] == "s") or (x[0] == "s" and x[1] != y[1]):
+                return dict(at=k, line=l[:200], impl=a[:300], model=b[:300], what="structure differs at %s / %s" % (x[1], y[1]))
+            if x[0] == "s":
+                continue
+            if exact_model:
+                if abs(Fraction(x[1]) - Fraction(y[1])) > Fraction(1, 10 ** 11) * Fraction(sc):
+                    return dict(at=k, line=l[:200], impl=float(x[1]), model=float(y[1]), what="value differs from exact model")
+            elif op == "solve":
+                if abs(x[1] - y[1]) > solve_rel * sc:
+                    return dict(at=k, line=l[:200], impl=a[:300], model=b[:300], what="solution vectors differ")
+            elif not (close(x[1], y[1], sc) or (x[1] != x[1] and y[1] != y[1])):
+                return dict(at=k, line=l[:200], impl=repr(x[1]), model=repr(y[1]), what="value differs")
+    return None
+
+
+def parse_cdump(reply):
+    head, _, btxt = reply.partition("|")
+    toks = head.split()
+    n = int(toks[0])
+    A = np.zeros((n, n), dtype=complex)
+    for t in toks[1:]:
+        p_, c_, re_, im_ = t.split(",")
+        A[int(p_), int(c_)] = A[int(c_), int(p_)] = complex(tok2d(re_), tok2d(im_))
+    bt = btxt.split()
+    b = np.array([complex(tok2d(bt[2 * i]), tok2d(bt[2 * i + 1])) for i in range(n)])
+    return n, A, b
+
+
+def complex_part(ck, build, mx, stats):
+    """stage B + P for CBigComplexLinProb"""
+    try:
+        hx = vlib.compile_harness("csparse_harness", build, ("femm", "luacomplex"))
+    except vlib.BuildError as e:
+        ck.obligation_broken("correspondence csparse_harness<->CBigComplexLinProb: " + str(e)[:400])
+        return
+    rng = ck.rng
+    nsys = 120 if ck.tier == "quick" else 1200
+    maxn = 50 if ck.tier == "quick" else 300
+    cst = dict(systems=0, rat=0, circuits=0, warm=0, constraints=dict(setvalue=0, periodic=0, antiperiodic=0),
+               hints=dict(zero=0, band=0), divisions=0, worst_true_relative_residual=0.0, worst_distance_to_dense=0.0)
+    stats["complex"] = cst
+
+    def run(lines, scalar):
+        r, e, c = vlib.run_lines([mx, "csparse", scalar], lines)
+        return r
+
+    for t in range(nsys):
+        small = t % 4 == 0
+        nodes = rng.randint(2, 8) if small else rng.randint(2, maxn)
+        lines, meta = scenario_complex(rng, nodes, exact_vals=small)
+        rc, ec, code = vlib.run_lines([hx], lines)
+        rm = run(lines, "float")
+        cst["systems"] += 1
+        cst["circuits"] += meta["circuits"]
+        cst["warm"] += int(meta["warm"])
+        cst["hints"]["zero" if meta["hint"] == 0 else "band"] += 1
+        cst["divisions"] += 4
+        for c in meta["cons"]:
+            cst["constraints"][c[0]] += 1
+        ck.case(("complex", meta["n"], meta["circuits"], str(meta["cons"]), len(lines)), nontrivial=True,
+                sample=dict(family="complex", n=meta["n"], nodes=nodes, hint=meta["hint"], constraints=[(c[0], c[1]) for c in meta["cons"]],
+                            first_ops=lines[:3]) if t < 2 else None)
+        if code != 0:
+            ck.violation("harness-abort:complex", "csparse harness terminated abnormally (rc=%d): %s" % (code, ec[-300:]),
+                         dict(engine="csparse", ops=lines))
+            continue
+        d = compare_complex(lines, rc, rm)
+        if d:
+            if not ck.broken_detail:
+                def fails(cand):
+                    a, _, _ = vlib.run_lines([hx], cand)
+                    return compare_complex(cand, a, run(cand, "float")) is not None
+                sm = shrink(lines, fails) if len(lines) < 3000 else lines
+                a, _, _ = vlib.run_lines([hx], sm)
+                d2 = compare_complex(sm, a, run(sm, "float")) or d
+                ck.obligation_broken("correspondence csparse: CBigComplexLinProb vs Model/CSparse.lean (%s)" % d2["what"],
+                                     dict(engine="csparse", ops=sm, first_difference=d2,
+                                          repro="feed <ops> to the csparse harness and to `xfemm_model csparse float`"))
+            else:
+                ck.obligation_broken("correspondence csparse: CBigComplexLinProb vs Model/CSparse.lean (%s)" % d["what"])
+        elif small:
+            cst["rat"] += 1
+            d = compare_complex(lines, rc, run(lines, "rat"), exact_model=True)
+            if d:
+                ck.obligation_broken("correspondence csparse (exact instance): " + d["what"],
+                                     dict(engine="csparse", scalar="rat", ops=lines, first_difference=d))
+        # ---- stage P: the implementation's own output against the meaning of the operations
+        dumps = [k for k, l in enumerate(lines) if l == "dump"]
+        _, A0, b0 = parse_cdump(rc[dumps[0]])
+        _, A1, b1 = parse_cdump(rc[dumps[1]])
+        for k, l in enumerate(lines):
+            if l.startswith("div "):
+                tk = l.split()
+                num = complex(tok2d(tk[1]), tok2d(tk[2]))
+                den = complex(tok2d(tk[3]), tok2d(tk[4]))
+                got = rc[k].split()
+                q = complex(tok2d(got[0]), tok2d(got[1]))
+                if den != 0 and abs(q * den - num) > 1e-14 * max(abs(num), 1e-300) * 8:
+                    ck.violation("complex-division", "CComplex division: (%r)/(%r) returned %r, whose product with the divisor is off by %.3g"
+                                 % (num, den, q, abs(q * den - num)), dict(engine="csparse", ops=[lines[0], l], observed=[q.real, q.imag]))
+        srep = rc[-1].split()
+        if srep[0] == "singular":
+            continue
+        vt = [tok2d(t_) for t_ in srep if len(t_) == 17 and t_[0] == "x"]
+        V = np.array([complex(vt[2 * i], vt[2 * i + 1]) for i in range(meta["n"])])
+        ref, cond = constrained_reference(A0, b0.astype(complex), meta["cons"])
+        res = np.linalg.norm(b1 - A1 @ V) / max(np.linalg.norm(b1), 1e-300)
+        err = np.linalg.norm(V - ref) / max(np.linalg.norm(ref), 1e-300)
+        cst["worst_true_relative_residual"] = max(cst["worst_true_relative_residual"], float(res))
+        cst["worst_distance_to_dense"] = max(cst["worst_distance_to_dense"], float(err))
+        tol_res = 1e2 * PREC + 1e-13 * cond
+        tol_err = 1e3 * PREC * max(1.0, cond)
+        if not (res <= tol_res) or not (err <= tol_err):
+            ck.violation("solve-constrained:complex", "PBCGSolveMod result is not the solution of the constrained complex system: relative "
+                         "residual %.3g (tol %.3g), distance to dense constrained solve %.3g (tol %.3g), n=%d constraints=%s"
+                         % (res, tol_res, err, tol_err, meta["n"], [(c[0], c[1]) for c in meta["cons"]]),
+                         dict(engine="csparse", ops=lines, residual=float(res), error=float(err), cond=cond))
 
 
 def rat(tok):
@@ -404,6 +644,7 @@ def main(argv):
                          "(tol %.3g), distance to dense constrained solve %.3g (tol %.3g), n=%d constraints=%s"
                          % (res, tol_res, err, tol_err, n, meta["cons"]),
                          dict(engine="sparse", ops=lines, constraints=meta["cons"], residual=res, error=err, cond=cond))
+    complex_part(ck, build, mx, stats)
     ck.notes.update(dict(input_distribution=stats, worst_true_relative_residual=worst_res,
                          worst_distance_to_dense_constrained_solve=worst_err, precision=PREC,
                          comparison="Float model vs C++: <=4 ulp or 1e-13*scale (solve: 1e-9 relative); "
